@@ -80,6 +80,7 @@ type schedLockSet struct {
 	maxHeld     int
 	acquires    int
 	doubleWrite bool
+	lazySlots   int // empty slots of a lazily filled table that were given a fresh mutex
 }
 
 type schedLocker struct {
@@ -157,12 +158,46 @@ func newSchedLockSet(ctl *sched.Controller, origW, origR []sync.Locker) (*schedL
 		return len(set.states) - 1
 	}
 	isReadSide := func(l sync.Locker) bool { return strings.HasSuffix(fmt.Sprintf("%T", l), "rlocker") }
+	// A table that is filled lazily has empty slots: nothing to mirror there. Such a stripe gets
+	// one fresh mutex shared by its write and its read entry (read side as the filled read
+	// entries of the table have it), which is what a correctly built table would hold.
+	isNil := func(l sync.Locker) bool {
+		if l == nil {
+			return true
+		}
+		v := reflect.ValueOf(l)
+		return (v.Kind() == reflect.Ptr || v.Kind() == reflect.Interface) && v.IsNil()
+	}
+	readHint := false
+	for _, l := range origR {
+		if !isNil(l) && isReadSide(l) {
+			readHint = true
+		}
+	}
+	lazy := map[int]int{}
+	lazyState := func(i int) int {
+		if st, ok := lazy[i]; ok {
+			return st
+		}
+		set.states = append(set.states, &lockState{writer: -1, readers: map[int]int{}})
+		lazy[i] = len(set.states) - 1
+		set.lazySlots++
+		return lazy[i]
+	}
 	w := make([]sync.Locker, len(origW))
 	r := make([]sync.Locker, len(origR))
 	for i := range origW {
+		if isNil(origW[i]) {
+			w[i] = &schedLocker{set: set, idx: lazyState(i)}
+			continue
+		}
 		w[i] = &schedLocker{set: set, idx: stateOf(origW[i]), read: isReadSide(origW[i])}
 	}
 	for i := range origR {
+		if isNil(origR[i]) {
+			r[i] = &schedLocker{set: set, idx: lazyState(i), read: readHint}
+			continue
+		}
 		r[i] = &schedLocker{set: set, idx: stateOf(origR[i]), read: isReadSide(origR[i])}
 	}
 	return set, w, r
@@ -721,7 +756,91 @@ func c03ShortDesc(p c03Program) string {
 
 // ---------------------------------------------------------------- free-running stress
 
+// c03ColdStripes: the first commands that ever use a lock stripe arrive at the same moment on
+// several connections (right after start-up, or any time with a large --concurrency): they too
+// must exclude each other. Every round uses a fresh key (= with 2^12 stripes mostly a fresh
+// stripe); all connections SET it at once with different values; when all are acknowledged the
+// two tiers must hold the same value. The memproxy runs under the race detector.
+func c03ColdStripes(run *evid.Run) {
+	rounds := run.Pick(600, 6000)
+	const nconn = 4
+	for _, mr := range []bool{true, false} {
+		cfg := harness.ProxyCfg{L2: true, L1Kind: "std", Locked: true, MultiReader: mr, Concurrency: 12, Race: true}
+		p, err := harness.StartProxy(cfg)
+		if err != nil {
+			run.Inconclusive("cannot start memproxy: " + err.Error())
+			return
+		}
+		var cls []*wire.Client
+		for c := 0; c < nconn; c++ {
+			cl, err := p.Dial(c%2, true)
+			if err != nil {
+				run.Inconclusive("cold stripes: dial: " + err.Error())
+				p.Stop()
+				return
+			}
+			cl.Watchdog = 60 * time.Second
+			cls = append(cls, cl)
+		}
+		bad := 0
+		for r := 0; r < rounds && bad == 0; r++ {
+			key := fmt.Sprintf("cold.%v.%d", mr, r)
+			var gate int32
+			var wg sync.WaitGroup
+			errs := make(chan string, nconn)
+			for c := 0; c < nconn; c++ {
+				wg.Add(1)
+				go func(c int) {
+					defer wg.Done()
+					cmd := wire.Cmd{Op: "set", Key: key, Value: []byte(fmt.Sprintf("v%d.%d", r, c)), Flags: uint32(c), Opaque: uint32(r*8 + c)}
+					atomic.AddInt32(&gate, 1)
+					for spins := 0; atomic.LoadInt32(&gate) < nconn; spins++ {
+						if spins > 20000 {
+							runtime.Gosched()
+						}
+					}
+					res, err := cls[c].Do(cmd)
+					if err != nil || res.Class != "ok" {
+						errs <- fmt.Sprintf("%v %v", res.Class, err)
+					}
+				}(c)
+			}
+			wg.Wait()
+			run.Count("cold_stripe_rounds", 1)
+			select {
+			case e := <-errs:
+				run.Inconclusive("cold stripes: a set failed: " + e)
+				bad++
+				continue
+			default:
+			}
+			e1, ok1 := p.L1.Snapshot()[key]
+			e2, ok2 := p.L2.Snapshot()[key]
+			if !ok1 || !ok2 || string(e1.Value) != string(e2.Value) || e1.Flags != e2.Flags {
+				bad++
+				run.Violation("locked|stress|"+cfg.Name()+"|first commands on a fresh lock stripe: after all sets were acknowledged L1 and L2 hold different values",
+					map[string]interface{}{"key": key, "round": r, "l1": string(e1.Value), "l2": string(e2.Value), "connections": nconn})
+			}
+			if r%200 == 199 {
+				p.ResetStores()
+			}
+		}
+		for _, cl := range cls {
+			cl.Close()
+		}
+		run.Eval(1)
+		run.Distinct(fmt.Sprintf("cold-stripes|%v", mr))
+		for _, rr := range parseRaces(p.RaceReports()) {
+			if rr.InRend && strings.Contains(rr.Text, "orcas.") {
+				run.Violation("locked|stress|"+cfg.Name()+"|data race in the locking wrapper: "+rr.Pair, map[string]interface{}{"report": rr.Text})
+			}
+		}
+		p.Stop()
+	}
+}
+
 func c03Stress(run *evid.Run) {
+	c03ColdStripes(run)
 	nhist := run.Pick(12, 150)
 	for _, mr := range []bool{true, false} {
 		cfg := harness.ProxyCfg{L2: true, L1Kind: "std", Locked: true, MultiReader: mr, Concurrency: 2}
